@@ -501,3 +501,8 @@ fn replay(_opts: &Opts, d: &Value, acc: &mut Acc) {
     }
     acc.inconclusive.push("C17 replay: source not found in the position grid and no genome given".into());
 }
+
+/// libFuzzer entry: one generated program
+pub fn fuzz_case(genome: &[u8], acc: &mut Acc) -> Vec<Failure> {
+    check_generated(genome, acc)
+}
